@@ -34,6 +34,9 @@ def C(v):
     return ("const", v, type(v).__name__)
 
 
+UNSUPPORTED = []     # statement kinds met by any interpreter of this process that it cannot model
+
+
 CONST_NONE = C(None)
 CONST_TRUE = C(True)
 CONST_FALSE = C(False)
@@ -288,8 +291,16 @@ class Interp:
         if isinstance(s, (ast.FunctionDef, ast.ClassDef)):
             st.env[s.name] = ("unknown", f"nested {s.name}")
             return st
-        raise AnalysisError(f"unsupported statement {type(s).__name__} at "
-                            f"{act.fi.module.path}:{s.lineno}")
+        # statement kinds the repository does not use today (match, async, ...): keep going with
+        # everything they assign havocked, and say so in the event list (rules that meet it inside
+        # an anchored function report `undecided`, never a silent pass)
+        self._emit("unsupported", st, s, act, what=type(s).__name__)
+        UNSUPPORTED.append(f"{type(s).__name__} at {act.fi.module.path}:{s.lineno} "
+                           f"({act.fi.qualname})")
+        for n in ast.walk(s):
+            if isinstance(n, ast.Name) and isinstance(n.ctx, ast.Store):
+                st.env[n.id] = ("unknown", f"{n.id} (assigned in unsupported {type(s).__name__})")
+        return st
 
     def _if(self, s, st, act):
         c = self._eval(s.test, st, act)
@@ -893,6 +904,11 @@ class Interp:
 
     def _e_DictComp(self, e, st, act):
         return self._comp("dict", e, [e.key, e.value], st, act)
+
+    def _e_NamedExpr(self, e, st, act):
+        v = self._eval(e.value, st, act)
+        st.env[e.target.id] = v
+        return v
 
     def _e_Starred(self, e, st, act):
         return ("starred", self._eval(e.value, st, act))
